@@ -265,6 +265,31 @@ def discharge_all(ex, obligations, workdir, timeout_s=20, jobs=16, both=False, g
             o.result = r
             if progress:
                 progress(o, r)
+    # second chance for undecided proof obligations: fewer hypotheses (cone of influence cut at 1, then 2 hops).
+    # Dropping hypotheses is sound for `unsat`; a `sat` of the reduced query means nothing and is ignored.
+    for hops in (1, 2):
+        retry = []
+        for o in obligations:
+            r = results.get(o.id)
+            if r is not None and o.expect == "unsat" and r.status == "unknown":
+                try:
+                    txt, n = build_query(ex, o, cache, None, hops)
+                except Exception:
+                    continue
+                retry.append((o, txt))
+        if not retry:
+            break
+
+        def work2(item):
+            o, txt = item
+            return o, decide(txt, workdir, o.id + "#hops%d" % hops, timeout_s=timeout_s, keep=False)
+        with ThreadPoolExecutor(max_workers=jobs) as pool:
+            for o, r2 in pool.map(work2, retry):
+                old = results[o.id]
+                old.log = list(old.log) + [("hops%d:%s" % (hops, w), st_, dt) for (w, st_, dt) in r2.log]
+                old.time += r2.time
+                if r2.status == "unsat":
+                    old.status, old.solver = "unsat", (r2.solver or "") + "(coi%d)" % hops
     return results
 
 
